@@ -110,7 +110,14 @@ impl Arc {
 
     /// Returns true if the memory should be dropped.
     pub(crate) fn ref_dec(&self, location: Location) -> bool {
-        self.branch(Action::RefDec, location);
+        // Execution has deadlocked and the handle is dropped while the panic
+        // unwinds. There is no active thread to schedule or synchronize with,
+        // cleanup does not matter.
+        let deadlocked = rt::execution(|execution| !execution.threads.is_active());
+
+        if !deadlocked {
+            self.branch(Action::RefDec, location);
+        }
 
         rt::execution(|execution| {
             let state = self.state.get_mut(&mut execution.objects);
@@ -121,6 +128,10 @@ impl Arc {
             state.ref_cnt -= 1;
 
             trace!(state = ?self.state, ref_cnt = ?state.ref_cnt, %location, "Arc::ref_dec");
+
+            if deadlocked {
+                return state.ref_cnt == 0;
+            }
 
             // Synchronize the threads.
             state
